@@ -179,3 +179,162 @@ def c_concentration_tail(t: str) -> bool:
     """
     # anything appended to a valid concentration string
     return _agree_conc('1 umol/10 uL' + t) and _agree_conc('1 M' + t)
+
+
+# ---- values with one arbitrary printable character in them -----------------------------------------------------------
+ALPHABET = [chr(c) for c in range(32, 127)]
+
+
+def _with_char(i: int, pos: int) -> str:
+    ch = ALPHABET[i]
+    return ['15' + ch, '1' + ch + '5', ch + '15'][pos]
+
+
+def c_quantity_value_char(i: int, pos: int) -> bool:
+    """
+    pre: 0 <= i < 95 and 0 <= pos < 3
+    post: _
+    """
+    # '1.5 mL' is a quantity; '1,5 mL', '1_5 mL', '1;5 mL', '15% mL' ... are what float() says they are, nothing else
+    v = _with_char(i, pos)
+    want = ref_quantity(v + ' mL') if ' ' not in v else None
+    try:
+        got = pp.Unit.parse_quantity(v + ' mL')
+    except Exception:
+        return want is None
+    return want is not None and got[1] == 'L' and _close(got[0], want[0])
+
+
+def c_concentration_value_char(i: int, pos: int) -> bool:
+    """
+    pre: 0 <= i < 95 and 0 <= pos < 3
+    post: _
+    """
+    return _agree_conc(_with_char(i, pos) + ' mM') and _agree_conc('1 mol/' + _with_char(i, pos) + ' L')
+
+
+# ---- every slot of the API accepts the kinds of unit it is about, and only those ------------------------------------
+# (a string that parses as *some* quantity is still malformed for a slot of another kind: a molarity is not an amount,
+#  a mass is not a capacity).  The unit token is prefix table[i] + base table[j] with symbolic indices, so CrossHair
+#  enumerates the whole table; the library call itself runs on the realised string outside CrossHair's tracing, because
+#  the library hashes Substance/Container objects (float fields), which CrossHair's patched hash() cannot take.
+_WATER = pp.Substance.liquid('water', 18.0153, 1.0)
+_SALT = pp.Substance.solid('NaCl', 58.4428)
+_LIP = pp.Substance.enzyme('lipase', '10 U/mg')
+PL = ['n', 'u', 'µ', 'm', 'c', 'd', '', 'da', 'k', 'M']
+BL = ['L', 'g', 'mol', 'U', 'M', 'x', '']
+
+
+def _accepted(call, q) -> bool:
+    try:
+        call(q)
+    except Exception:
+        return False
+    return True
+
+
+def _accepted_concretely(call, q) -> bool:
+    try:
+        from crosshair import realize
+        from crosshair.tracers import NoTracing, is_tracing
+    except ImportError:
+        return _accepted(call, q)
+    if is_tracing():
+        q = realize(q)
+        with NoTracing():
+            return _accepted(call, q)
+    return _accepted(call, q)
+
+
+def _slot(i: int, j: int, bases, call) -> bool:
+    token = PL[i] + BL[j]
+    want = BL[j] in bases
+    # half a milli-unit of the base (0.5 mL, 0.5 mg, 0.5 mmol, 0.5 mU) written with the prefix under test
+    value = repr(5e-4 / PREFIX[PL[i]])
+    return _accepted_concretely(call, value + ' ' + token) == want
+
+
+def _stock():
+    return pp.Container('stock', initial_contents=[(_WATER, '1000 L'), (_SALT, '100 kg'), (_LIP, '10 MU')])
+
+
+def c_slot_transfer(i: int, j: int) -> bool:
+    """
+    pre: 0 <= i < 10 and 0 <= j < 7
+    post: _
+    """
+    return _slot(i, j, ('L', 'g', 'mol', 'U'), lambda q: pp.Container.transfer(_stock(), pp.Container('dst'), q))
+
+
+def c_slot_plate_transfer(i: int, j: int) -> bool:
+    """
+    pre: 0 <= i < 10 and 0 <= j < 7
+    post: _
+    """
+    return _slot(i, j, ('L', 'g', 'mol', 'U'),
+                 lambda q: pp.Plate.transfer(_stock(), pp.Plate('p', '1 ML', rows=1, columns=1), q))
+
+
+def c_slot_initial_contents(i: int, j: int) -> bool:
+    """
+    pre: 0 <= i < 10 and 0 <= j < 7
+    post: _
+    """
+    return _slot(i, j, ('L', 'g', 'mol'), lambda q: pp.Container('c', initial_contents=[(_WATER, q)]))
+
+
+def c_slot_fill_to(i: int, j: int) -> bool:
+    """
+    pre: 0 <= i < 10 and 0 <= j < 7
+    post: _
+    """
+    return _slot(i, j, ('L', 'g', 'mol'), lambda q: pp.Container('c').fill_to(_WATER, q))
+
+
+def c_slot_capacity(i: int, j: int) -> bool:
+    """
+    pre: 0 <= i < 10 and 0 <= j < 7
+    post: _
+    """
+    return _slot(i, j, ('L',), lambda q: pp.Container('c', q)) and _slot(i, j, ('L',), lambda q: pp.Plate('p', q))
+
+
+def c_slot_total_quantity(i: int, j: int) -> bool:
+    """
+    pre: 0 <= i < 10 and 0 <= j < 7
+    post: _
+    """
+    return _slot(i, j, ('L', 'g', 'mol'),
+                 lambda q: pp.Container.create_solution(_SALT, _WATER, concentration='0.001 M', total_quantity=q))
+
+
+def c_slot_solute_quantity(i: int, j: int) -> bool:
+    """
+    pre: 0 <= i < 10 and 0 <= j < 7
+    post: _
+    """
+    return _slot(i, j, ('L', 'g', 'mol'),
+                 lambda q: pp.Container.create_solution(_SALT, _WATER, concentration='0.001 M', quantity=q))
+
+
+def c_slot_solution_from_quantity(i: int, j: int) -> bool:
+    """
+    pre: 0 <= i < 10 and 0 <= j < 7
+    post: _
+    """
+    return _slot(i, j, ('L', 'g', 'mol'),
+                 lambda q: pp.Container.create_solution_from(_stock(), _SALT, '0.001 M', _WATER, q))
+
+
+def c_slot_report_unit(i: int, j: int) -> bool:
+    """
+    pre: 0 <= i < 10 and 0 <= j < 7
+    post: _
+    """
+    token = PL[i] + BL[j]
+    want = BL[j] == 'L'
+    got = []
+    ok = _accepted_concretely(lambda u: got.append(pp.Container('w', initial_contents=[(_WATER, '2 L')]).get_volume(u)), token)
+    if not want:
+        return not ok
+    return ok and abs(got[0] * PREFIX[PL[i]] - 2.0) <= 1e-9
